@@ -326,6 +326,13 @@ def judge(o):
     r1 = o.get("run1") or {}
     if o.get("harness_err"):
         return "unjudged:driver: " + o["harness_err"][:300], {}, [], {}
+    rp0 = (o.get("restart") or {}).get("proc") or {}
+    if (r1.get("bind_failure") and not r1.get("started")) or (rp0.get("bind_failure") and not rp0.get("started")):
+        # other checks start servers on this machine at the same time and find their ports the same way; a start that lost
+        # its port to another process on every attempt (fresh port each time) says nothing about the server
+        return "unjudged:a port was taken by another process (%s start, %s attempts): address already in use" % (
+            "first" if r1.get("bind_failure") and not r1.get("started") else "second",
+            (r1 if r1.get("bind_failure") and not r1.get("started") else rp0).get("attempts", "?")), {}, [], {}
     if not r1.get("started"):
         return "unjudged:the server did not start: " + (r1.get("start_err") or "")[-400:], {}, [], {}
     if o.get("setup_err"):
